@@ -87,6 +87,8 @@ class DetectVarNames( ast.NodeVisitor ):
         elif isinstance( v, ast.Call ): # int(x)
           for x in v.args:
             self.visit(x)
+        else: # s.sel[0], s.sel[0:2], s.sel + 1 ... still reads signals
+          self.visit( v )
 
         num.append(n)
 
@@ -190,6 +192,8 @@ class DetectVarNames( ast.NodeVisitor ):
           raise TypeError( f"Having slice in the middle such as s.x[1][1:2][1][2] "
                            f"doesn't make sense at line {input_node.lineno} of "
                            f"update block {self.upblk.__name__} in class {self.obj.__class__}." )
+        else: # s.sel[0], s.sel[0:2], s.sel + 1 ... still reads signals
+          self.visit( v )
 
         num.append(n)
 
